@@ -352,6 +352,8 @@ class Fzn:
             keep = [v for v in vals if r.random() < 0.7] or [vals[0]]
             vals = keep
             decl = f"var {{{','.join(map(str, vals))}}}: {name}"
+        elif r.random() < 0.12 and self.ints():
+            return self.new_alias()
         elif r.random() < 0.08:
             v = r.choice(vals)
             decl = f"var {vals[0]}..{vals[-1]}: {name}"
@@ -365,6 +367,26 @@ class Fzn:
             decl = f"var {vals[0]}..{vals[-1]}: {name}"
         self.vars.append((name, "int", vals, decl, ""))
         return len(self.vars) - 1
+
+    def new_alias(self):
+        # alias of an earlier variable: `var lo..hi: x = y;` (the two share one domain: the intersection)
+        r = self.r
+        name = f"x{len(self.vars)}"
+        other = r.choice(self.ints())
+        ovals = self.vars[other][2]
+        lo2 = min(ovals) - r.randint(0, 2)
+        hi2 = max(ovals) + r.randint(-1, 2)
+        if r.random() < 0.5:
+            lo2 = min(ovals) + r.randint(0, 1)
+        if hi2 < lo2 or not [v for v in ovals if lo2 <= v <= hi2]:
+            lo2, hi2 = min(ovals), max(ovals)
+        vals = list(range(lo2, hi2 + 1))
+        decl = f"var {lo2}..{hi2}: {name}"
+        self.vars.append((name, "int", vals, decl, f" = {self.vars[other][0]}"))
+        me = len(self.vars) - 1
+        self.cons_spec.append(f"lineq 2 {self.view(1, 0, me)} {self.view(-1, 0, other)} 0")
+        self.kinds.append("alias")
+        return me
 
     def new_bool(self):
         name = f"b{len(self.vars)}"
@@ -609,6 +631,12 @@ class Fzn:
         self.kinds = []
         for _ in range(r.randint(1, 3)):
             self.new_int()
+        if r.random() < 0.25:
+            # several aliases, of different variables and of each other
+            for _ in range(r.randint(1, 3)):
+                self.new_alias()
+                if r.random() < 0.5:
+                    self.new_int()
         if r.random() < 0.6:
             self.new_bool()
         for _ in range(r.randint(1, 5)):
